@@ -1,8 +1,10 @@
 //@ tu: libxcm/core/xcm_addr.c
 //@ loops: addrpub.loops
+//@ defs: -DXV_AP_HS_ENFORCED
 //@ enforce: has_space
 //@ props: C12
 //@ expect: postcondition>=1 canary=3 loop_invariant_base>=1
+/* UNBOUNDED: every string of 0..XCM_ADDR_MAX characters (the function's whole domain), in an object that ends at the NUL */
 #include "_addr.h"
 void harness(void)
 {
